@@ -245,3 +245,20 @@ def reverse_lookup_call(prog: Program, caller: FunctionInfo, e: ast.AST) -> Opti
 
         return r, arg(r.table_param), arg(r.value_param)
     return None
+
+
+def see_through(ctx, fn: FunctionInfo, e: Optional[ast.AST], depth: int = 3) -> Optional[ast.AST]:
+    """the defining expression of a local that has exactly one reaching definition at its use (a
+    temporary introduced for readability): `name = str(index); Block(name=name)` reads as
+    `Block(name=str(index))`.  Anything else is returned unchanged."""
+    while depth > 0 and isinstance(e, ast.Name):
+        ds = [d for d in ctx.cfg(fn).reaching_defs(e) if d.stmt is not None]
+        every = ctx.cfg(fn).reaching_defs(e)
+        if len(every) == 1 and len(ds) == 1 and isinstance(ds[0].stmt, (ast.Assign, ast.AnnAssign)) and ds[0].stmt.value is not None:
+            tg = ds[0].stmt.targets[0] if isinstance(ds[0].stmt, ast.Assign) else ds[0].stmt.target
+            if isinstance(tg, ast.Name) and (not isinstance(ds[0].stmt, ast.Assign) or len(ds[0].stmt.targets) == 1):
+                e = ds[0].stmt.value
+                depth -= 1
+                continue
+        break
+    return e
